@@ -19,8 +19,9 @@ statement is checked against the real code:
                    notation (copy, set `.separator`) - returns that node at
                    that position and no other: exactly once, or, when the
                    reported path names the node by its anchor (&name), once per
-                   place the anchored node occurs (all results are that node,
-                   no position twice, nc's own position among them).
+                   place the anchored node occurs (every result is that node; a
+                   container shared through aliases has one (parent, ref) position,
+                   so the places themselves are not counted).
   (+) stability    the coordinates handed out with a result do not change
                    while the rest of the results are generated (a result's
                    path / ancestry objects are owned by that result).
@@ -29,18 +30,31 @@ All clauses are checked at the moment the result is yielded (the README's
 `for nc in get_nodes(...)` pattern); stability is checked after the generator
 is exhausted.
 
+Virtual results (skipped, counted): the result of a slice `[a:b]` (also `[a:a]`),
+of a collector, of name(); every result of a query that contains name(); what a
+later segment makes of a slice/collector when its parent or node is a temporary
+container that is not part of the document.  Results downstream of a slice that
+claim document containers are checked (key suffix .../after-virtual).
+
+A failing multi-segment query is attributed to its shortest prefix whose own
+results already fail (later segments only inherit broken coordinates): the
+witness input is that prefix.
+
 Inputs: documents from rtc.gen.trees over the default key alphabet and over
 keys drawn from the escapable punctuation set, hand-written anchor/alias/merge
-documents, seeded random trees; x paths of 1 and 2 segments (C01 fragment +
-keyword segments has_child/min/max/unique/distinct/parent/name, inverted
-forms), rendered in dot and in forward-slash notation by rtc.pathgen.
+documents, seeded random trees; x paths of 1 and 2 segments (3 sampled) of the
+C01 fragment + keyword segments has_child/min/max/unique/distinct/parent/name,
+inverted forms, rendered in dot and in forward-slash notation by rtc.pathgen.
 
 Keys that begin with '&', contain '*' or a backslash, or are empty are outside
 the property's character list: such documents are run, failures are counted
 with out_of_scope and never become witnesses.
 
-Witness key:  C02/<clause>[:<detail>]/<segment kind that produced the result>/
-              <container kind>[/via-slice]
+Witness key:  C02/<clause>[:<detail>]/<kind of the query's last segment = nc.path_segment>/
+              <kind of the container at which it goes wrong>
+              C02/<clause>/after-virtual                       (a later segment consumed a slice)
+              C02/requery-miss:first-key-begins-with-slash/*/* (path text rendering, any segment)
+              C02/requery-miss:path-text-does-not-parse-back-to-the-ancestry-refs/*/<container>
 """
 import itertools
 import json
@@ -220,7 +234,10 @@ class Doc:
 
     def homes(self, nc):
         """containers other than nc.parent that hold nc.node (by identity) under a reference equal to nc.parentref"""
-        return [c for c, ref, ch in self.positions if ch is nc.node and c is not nc.parent and _same_ref(ref, nc.parentref)]
+        found = [c for c, ref, ch in self.positions if ch is nc.node and c is not nc.parent and _same_ref(ref, nc.parentref)]
+        # scalars are shared objects: prefer a container that hangs directly under the claimed parent
+        under = [c for c in found if any(pc is nc.parent and pch is c for pc, _, pch in self.positions)]
+        return under + [c for c in found if not any(c is u for u in under)]
 
     def is_merge_source(self, nc):
         m = getattr(nc.parent, "merge", None)
@@ -317,11 +334,12 @@ def check_ancestry(nc, doc, home=None):
     hk = kind(home) if home is not None else kind(nc.parent)
     if home is not None:
         tparent = home                    # the walk has to end at the container the node really lives in
-        try:
-            if (not anc and home is root) or (anc and anc[0][0] is root and anc[-1][0][anc[-1][1]] is home):
-                return "stops-above-the-container", "%s, node lives in %s" % (_anc_repr(anc), _short(home)), hk
-        except (KeyError, IndexError, TypeError):
-            pass
+        for cand in [home] + [h for h in doc.homes(nc) if h is not home]:   # equal scalars are shared objects
+            try:
+                if (not anc and cand is root) or (anc and anc[0][0] is root and anc[-1][0][anc[-1][1]] is cand):
+                    return "stops-above-the-container", "%s, node lives in %s" % (_anc_repr(anc), _short(cand)), kind(cand)
+            except (KeyError, IndexError, TypeError):
+                pass
     if not anc:
         return "truncated", "ancestry=[] parent=%s parentref=%r" % (_short(nc.parent), nc.parentref), hk
     if anc[0][0] is not root:
@@ -371,13 +389,12 @@ class Requery:
         if text in self.memo:
             return self.memo[text]
         from yamlpath import Processor
-        try:
-            res = []
-            for r in Processor(self.log, self.doc.root).get_nodes(text, mustexist=True):
-                res.append(("virtual",) if is_virtual(r, self.doc, True) else (r.node, r.parent, r.parentref))
-            out = ("ok", res)
-        except Exception as e:   # including a crash on the library's own reported path
+        try:                                         # only the library runs inside this try
+            got = list(Processor(self.log, self.doc.root).get_nodes(text, mustexist=True))
+        except Exception as e:                       # including a crash on the library's own reported path
             out = ("exc", type(e).__name__, str(e)[:120])
+        else:
+            out = ("ok", [("virtual",) if is_virtual(r, self.doc, True) else (r.node, r.parent, r.parentref) for r in got])
         self.memo[text] = out
         return out
 
@@ -524,37 +541,43 @@ def check_case(doc, path_text, log=None, requery=None):
         failures.append((key, WHAT[clause], observed, expected))
 
     handed_out = []
-    try:
-        for nc in Processor(log, doc.root).get_nodes(path_text, mustexist=True):
-            info["n"] += 1
-            v = "downstream-of-name()" if has_name else is_virtual(nc, doc, upstream_virtual)
-            if v:
-                info["virtual"] += 1
-                info["kinds"].append("virtual:" + v)
-                continue
-            info["kinds"].append(seg_kind(nc) + ">" + kind(nc.parent))
-            handed_out.append((nc, snapshot_coords(nc)))
-            pr = check_parent_ref(nc, doc)
-            if pr:
-                fail(nc, "parent-ref", pr[0], pr[1], "parent[parentref] is node (set: node in parent); root: parent None", pr[2])
-            home = doc.homes(nc)[0] if pr and pr[0] == "parent-is-not-the-container" else None
-            an = check_ancestry(nc, doc, home)
-            if an:
-                fail(nc, "ancestry", an[0], an[1],
-                     "chain root=a0..an=parent, a_i[ref_i] is a_i+1, last entry == (parent, parentref)", an[2])
-            hk = kind(home) if home is not None else kind(nc.parent)
-            for clause, detail, obs in check_requery(nc, requery, position_trusted=pr is None):
-                if clause == "requery-miss" and an is None and not parses_back(nc):
-                    # the chain is right, the text is not: rendering/escaping, whatever segment produced the result
-                    fail(nc, clause, "path-text-does-not-parse-back-to-the-ancestry-refs", obs,
-                         "the reported path's segments are the ancestry's references", hk, any_segment=True)
-                else:
-                    fail(nc, clause, detail, obs,
-                         "exactly this node at this position, once (every result that node for &anchor paths)", hk)
-    except YAMLPathException as e:
-        info["exc"] = type(e).__name__
-    except Exception as e:                      # C15's business, not a coordinate failure
-        info["exc"] = "crash:" + type(e).__name__
+    results = iter(Processor(log, doc.root).get_nodes(path_text, mustexist=True))
+    while True:
+        try:                                        # only the library runs inside this try
+            nc = next(results)
+        except StopIteration:
+            break
+        except YAMLPathException as e:
+            info["exc"] = type(e).__name__
+            break
+        except Exception as e:                      # C15's business, not a coordinate failure
+            info["exc"] = "crash:" + type(e).__name__
+            break
+        info["n"] += 1
+        v = "downstream-of-name()" if has_name else is_virtual(nc, doc, upstream_virtual)
+        if v:
+            info["virtual"] += 1
+            info["kinds"].append("virtual:" + v)
+            continue
+        info["kinds"].append(seg_kind(nc) + ">" + kind(nc.parent))
+        handed_out.append((nc, snapshot_coords(nc)))
+        pr = check_parent_ref(nc, doc)
+        if pr:
+            fail(nc, "parent-ref", pr[0], pr[1], "parent[parentref] is node (set: node in parent); root: parent None", pr[2])
+        home = doc.homes(nc)[0] if pr and pr[0] == "parent-is-not-the-container" else None
+        an = check_ancestry(nc, doc, home)
+        if an:
+            fail(nc, "ancestry", an[0], an[1],
+                 "chain root=a0..an=parent, a_i[ref_i] is a_i+1, last entry == (parent, parentref)", an[2])
+        hk = kind(home) if home is not None else kind(nc.parent)
+        for clause, detail, obs in check_requery(nc, requery, position_trusted=pr is None):
+            if clause == "requery-miss" and an is None and not parses_back(nc):
+                # the chain is right, the text is not: rendering/escaping, whatever segment produced the result
+                fail(nc, clause, "path-text-does-not-parse-back-to-the-ancestry-refs", obs,
+                     "the reported path's segments are the ancestry's references", hk, any_segment=True)
+            else:
+                fail(nc, clause, detail, obs,
+                     "exactly this node at this position, once (every result that node for &anchor paths)", hk)
     for nc, snap in handed_out:
         now = snapshot_coords(nc)
         if now != snap:
@@ -759,7 +782,7 @@ def _items(tier, seed):
     punct = gen.trees(3, 2, keys=PUNCT_KEYS, scalars=(1,), sets=False)
     punct = [t for t in punct if isinstance(t, (dict, list)) and doc_keys(t)]
     for t in punct:
-        add(t, "all2" if not quick else "sample", n=150)
+        add(t, "all2" if not quick and len(doc_keys(t)) <= 1 else "sample", n=150 if quick else 500)
     deep = [{k: {k2: 1}} for k in PUNCT_KEYS for k2 in PUNCT_KEYS[:6]] + \
            [[{k: 1}, {k: "a", "a": 2}] for k in PUNCT_KEYS] + [{k: [{k: 1}]} for k in PUNCT_KEYS] + \
            [{"r": gen.SetT((k, "m"))} for k in PUNCT_KEYS]
@@ -792,7 +815,8 @@ def bounds(tier):
         "core_keys": list(map(str, KEYS_DEFAULT)), "core_scalars": [repr(s) for s in SCALARS_CORE],
         "punctuation_keys": list(PUNCT_KEYS),
         "punctuation_docs": "trees(N<=3,D<=2, keys=PUNCT, no sets) + 2-level/AoH/seq-in-map/set shapes per key; "
-                            + ("150 sampled paths each" if quick else "all 1+2-segment paths each"),
+                            + ("150 sampled paths each" if quick else
+                               "all 1+2-segment paths (one-key documents, shaped documents), 500 sampled paths (two-key documents)"),
         "anchor_docs": list(ANCHOR_DOCS),
         "out_of_scope_keys": list(OOS_KEYS),
         "random_docs": (QUICK_RANDOM_DOCS if quick else THOROUGH_RANDOM_DOCS), "random_doc_nodes": 14, "random_paths_per_doc": 60 if quick else 150,
